@@ -9,7 +9,7 @@
 From SF Require Import Base.Prelude Gen.Generated Unsized.Types Unsized.Parse Unsized.Machine Unsized.Ops.
 From SF Require Import Unsized.Proofs.EncodeParse Unsized.Proofs.Flat.
 From SF Require Import Unsized.Proofs.Layout Unsized.Proofs.Path Unsized.Proofs.Resize Unsized.Proofs.History Unsized.Proofs.History2.
-From SF Require Import Unsized.Proofs.History3 Unsized.Proofs.Enums.
+From SF Require Import Unsized.Proofs.History3 Unsized.Proofs.Enums Unsized.Proofs.InitKinds Unsized.Proofs.StringSet.
 
 (* the full operation set (stores, set_len, element-level insert / remove / clear of lists of unsized elements) *)
 Theorem C02_all_ops_canonical_after_any_history :
@@ -19,7 +19,7 @@ Theorem C02_all_ops_canonical_after_any_history :
       ztake (m_len s') (m_mem s') = encode t v' /\ m_len s' = byte_size t v'.
 Proof.
   intros ovf t h v s top pi0 v' R Hn Ho.
-  destruct (xrun_refines ovf t h v s top pi0 v' R Hn Ho) as (s' & top' & pi' & Hrun & R' & _).
+  destruct (History2.xrun_refines ovf t h v s top pi0 v' R Hn Ho) as (s' & top' & pi' & Hrun & R' & _).
   exists s', top'. split; [exact Hrun|].
   destruct (repf_observable ovf pi' t v' s' top' R') as (_ & Hb & Hl & _). auto.
 Qed.
@@ -35,6 +35,20 @@ Theorem C02_canonical_after_any_full_history :
 Proof.
   intros ovf t h v s top pi0 v' obss R Hn Ho.
   destruct (zrun_refines ovf t h v s top pi0 v' obss R Hn Ho) as (s' & top' & pi' & Hrun & R' & _).
+  exists s', top'. split; [exact Hrun|].
+  destruct (repf_observable ovf pi' t v' s' top' R') as (_ & Hb & Hl & _). auto.
+Qed.
+
+(* ... and with non-default initializers and UnsizedString::set (whose failures leave the string cleared) among the
+   operations: the final history theorem of C01 (C01_run_refines_every_operation) *)
+Theorem C02_canonical_after_any_history_of_every_operation :
+  forall ovf t h v s top pi0 v' obss,
+    RepF pi0 t v s top -> m_refuse s <> 1 -> orunS (m_cap s) t v h = Some (v', obss) ->
+    exists s' top', mrunS ovf t s top h = Ok (s', top', obss) /\
+      ztake (m_len s') (m_mem s') = encode t v' /\ m_len s' = byte_size t v'.
+Proof.
+  intros ovf t h v s top pi0 v' obss R Hn Ho.
+  destruct (srun_refines ovf t h v s top pi0 v' obss R Hn Ho) as (s' & top' & pi' & Hrun & R' & _).
   exists s', top'. split; [exact Hrun|].
   destruct (repf_observable ovf pi' t v' s' top' R') as (_ & Hb & Hl & _). auto.
 Qed.
